@@ -26,8 +26,8 @@ META = {
         'resized to (nfiber, npix); C16.TILING - spec_append allocates zeros of shape (nrows1+nrows2, max(npix1+nadd1, '
         'npix2+nadd2)), stores rows [0,nrows1) and [nrows1,nrows) with column slices of the sources\' own widths starting '
         'at nadd_i, at most one nadd_i non-zero with value |pixshift|, and has no return path that bypasses this. '
-        'C16.NO-MEMO - readspec and the file-location helpers it calls keep no module-level memo. C16.LOCKSTEP also: the request vectors are filled by position, never through a mask on the VALUE of another request vector; C16.ROWSEL also: on the znum path the row is exactly (fibre-1)*nper + znum - 1 (polynomial normal form over all reaching definitions). C16.PATH-KW - the per-file spec_path() call receives the topdir keyword that latest_mjd() honours; C16.LOGLAM-PAD - the zero-padded wavelength image is rebuilt from each row\'s COEFF0/COEFF1 over the padded width on every path; NOT decided: correctness of file location itself (spec_path, latest_mjd), optional files present for some plates only, the align arithmetic.'),
-    'floors': {'C16.PATH-KW': 1, 'C16.LOGLAM-PAD': 1, 'C16.INV-PERM': 3, 'C16.REORDER-ALL': 5, 'C16.LOCKSTEP': 6, 'C16.ROWSEL': 4, 'C16.LOGLAM': 3, 'C16.TILING': 6, 'C16.NO-MEMO': 3},
+        'C16.NO-MEMO - readspec and the file-location helpers it calls keep no module-level memo. C16.LOCKSTEP also: the request vectors are filled by position, never through a mask on the VALUE of another request vector; C16.ROWSEL also: on the znum path the row is exactly (fibre-1)*nper + znum - 1 (polynomial normal form over all reaching definitions). C16.PATH-KW - the per-file spec_path() call receives the topdir keyword that latest_mjd() honours; C16.LOGLAM-PAD - the zero-padded wavelength image is rebuilt from each row\'s COEFF0/COEFF1 over the padded width on every path; C16.KW-FORWARD - every keyword readspec reads from its ** dictionary is a parameter of every function without ** that the dictionary is handed to wholesale (readspec -> number_of_fibers / latest_mjd -> spec_path), by signature agreement along the call graph; C16.SCALAR-SLOT - number_of_fibers stores a scalar, not a mask selection, into each per-plate element (light types: loop index over range, subscript by a comparison mask); NOT decided: correctness of file location itself (spec_path, latest_mjd), optional files present for some plates only, the align arithmetic.'),
+    'floors': {'C16.KW-FORWARD': 2, 'C16.SCALAR-SLOT': 1, 'C16.PATH-KW': 1, 'C16.LOGLAM-PAD': 1, 'C16.INV-PERM': 3, 'C16.REORDER-ALL': 5, 'C16.LOCKSTEP': 6, 'C16.ROWSEL': 4, 'C16.LOGLAM': 3, 'C16.TILING': 6, 'C16.NO-MEMO': 3},
 }
 
 SPEC1D = 'pydl/pydlspec2d/spec1d.py'
@@ -606,7 +606,141 @@ def check_no_memo(ctx, repo):
                       'previously seen plate-MJD' % (g.qualname, (decos + shared)[:3]), construct='%s memo: %s' % (g.qualname, (decos + shared)[:2]))
 
 
+def check_scalar_slot(ctx, repo):
+    """C16.SCALAR-SLOT: on the `all fibres` path of readspec, number_of_fibers fills one element per plate.  An element of an array
+    (`A[k]`, k an integer loop index) cannot receive a boolean-mask selection `B[mask]` as it is: that is an array of however many rows
+    match, and NumPy refuses to store even a one-element array into a scalar slot (`setting an array element with a sequence`), so
+    every request for all fibres of a plate observed after MJD 55025 fails.  The selection must be reduced to a scalar first
+    (`[0]`, `.item()`, `int(..)`, a reduction).  Light types: the index is a loop variable over range(); the selected value is a
+    subscript whose index is built from comparisons."""
+    f = repo.func(SPEC1D, 'number_of_fibers')
+    fa = FA(f)
+    ctx.cover(f)
+
+    def is_mask(e, depth=0):
+        if isinstance(e, ast.Compare):
+            return True
+        if isinstance(e, ast.BinOp) and isinstance(e.op, (ast.BitAnd, ast.BitOr)):
+            return is_mask(e.left, depth) and is_mask(e.right, depth)
+        if isinstance(e, ast.UnaryOp) and isinstance(e.op, ast.Invert):
+            return is_mask(e.operand, depth)
+        if isinstance(e, ast.Call) and call_name(e) in ('logical_and', 'logical_or', 'logical_not'):
+            return all(is_mask(a, depth) for a in e.args)
+        if isinstance(e, ast.Name) and depth < 3:
+            ds = [v for d, v in fa.defs(e) if d is not None]
+            return bool(ds) and all(v is not None and is_mask(v, depth + 1) for v in ds)
+        return False
+
+    def array_valued(e, depth=0):
+        """A selection by mask that has not been reduced to one element."""
+        if isinstance(e, ast.Subscript):
+            return is_mask(e.slice)
+        if isinstance(e, ast.Name) and depth < 3:
+            ds = [v for d, v in fa.defs(e) if d is not None]
+            return bool(ds) and all(v is not None and array_valued(v, depth + 1) for v in ds)
+        return False
+    n = 0
+    for st in walk_local(f.node):
+        if not (isinstance(st, ast.Assign) and len(st.targets) == 1 and isinstance(st.targets[0], ast.Subscript) and isinstance(st.targets[0].slice, ast.Name)):
+            continue
+        k = st.targets[0].slice
+        loops = [a for a in ancestors(st) if isinstance(a, ast.For) and isinstance(a.target, ast.Name) and a.target.id == k.id
+                 and isinstance(a.iter, ast.Call) and call_name(a.iter) == 'range']
+        if not loops:
+            continue
+        n += 1
+        bad = array_valued(st.value)
+        ctx.check('C16.SCALAR-SLOT', not bad, f, st, 'number_of_fibers: `%s` receives one value per plate (`%s`)' % (src(st.targets[0]), src(st.value)[:50]),
+                  msg='number_of_fibers stores the mask selection `%s` into the single element `%s`: NumPy does not store an array (not even of one '
+                      'element) into a scalar slot, so readspec(..., fiber=\'all\') fails with ValueError for every plate observed after MJD 55025; the '
+                      'selection has to be reduced to its one element first' % (src(st.value)[:60].replace('\n', ' '), src(st.targets[0])),
+                  construct='number_of_fibers: array stored into one element')
+    ctx.need(n >= 1, 'number_of_fibers: the per-plate store not found')
+
+
+def check_kw_forward(ctx, repo):
+    """C16.KW-FORWARD: readspec hands its whole ** dictionary on (to number_of_fibers when all fibres are asked for, to latest_mjd when
+    no MJD is given), and those hand it on again.  A function that has no ** parameter of its own raises TypeError for every key it
+    does not name, so whatever a caller of readspec may legitimately pass - every key readspec itself reads from the dictionary - must
+    be a parameter of every function without ** that the dictionary reaches wholesale.  Signature agreement along the call graph."""
+    roots = ['readspec']
+    funcs = {q: repo.func(SPEC1D, q) for q in ('readspec', 'number_of_fibers', 'latest_mjd', 'spec_path')}
+
+    def kw_name(f):
+        return f.node.args.kwarg.arg if f.node.args.kwarg is not None else None
+
+    def own_keys(f):
+        kw = kw_name(f)
+        out = set()
+        if kw is None:
+            return out
+        for n in walk_local(f.node):
+            if isinstance(n, ast.Compare) and len(n.ops) == 1 and isinstance(n.ops[0], (ast.In, ast.NotIn)) and isinstance(n.left, ast.Constant) \
+                    and isinstance(n.comparators[0], ast.Name) and n.comparators[0].id == kw and isinstance(n.left.value, str):
+                out.add(n.left.value)
+            if isinstance(n, ast.Subscript) and isinstance(n.value, ast.Name) and n.value.id == kw and isinstance(n.slice, ast.Constant) and isinstance(n.slice.value, str):
+                out.add(n.slice.value)
+            if isinstance(n, ast.Call) and isinstance(n.func, ast.Attribute) and n.func.attr in ('get', 'pop') and isinstance(n.func.value, ast.Name) \
+                    and n.func.value.id == kw and n.args and isinstance(n.args[0], ast.Constant) and isinstance(n.args[0].value, str):
+                out.add(n.args[0].value)
+        return out
+
+    def forwards(f):
+        """[(call, callee Func)] where the whole ** dictionary of f is handed on."""
+        kw = kw_name(f)
+        out = []
+        if kw is None:
+            return out
+        for c in walk_local(f.node):
+            if isinstance(c, ast.Call) and any(k.arg is None and isinstance(k.value, ast.Name) and k.value.id == kw for k in c.keywords):
+                g = repo.resolve_call(c, f)
+                if g is not None:
+                    out.append((c, g))
+        return out
+    offered = {q: set() for q in funcs}
+    offered['readspec'] = own_keys(funcs['readspec'])
+    ctx.need(offered['readspec'], 'readspec: no keyword is read from its ** dictionary')
+    work = list(roots)
+    seen_edges = set()
+    n = 0
+    while work:
+        q = work.pop()
+        f = funcs.get(q) or next((g for g in funcs.values() if g.qualname == q), None)
+        if f is None:
+            continue
+        ctx.cover(f)
+        for c, g in forwards(f):
+            key = (q, g.qualname, c.lineno)
+            if key in seen_edges:
+                continue
+            seen_edges.add(key)
+            passed = set(offered.get(q, set()))
+            # keys given explicitly in the same call win over the dictionary only by raising TypeError (duplicate): ignore
+            a = g.node.args
+            names = {x.arg for x in a.args + a.kwonlyargs}
+            n += 1
+            if a.kwarg is None:
+                extra = sorted(passed - names)
+                ctx.check('C16.KW-FORWARD', not extra, f, c,
+                          '%s hands its ** dictionary to %s, which names every key that can be in it (%s)' % (q, g.qualname, sorted(passed)),
+                          msg='%s hands its whole ** dictionary to %s(%s), which has no ** parameter: the keywords %s, which readspec accepts and reads, make '
+                              'that call raise TypeError (for example readspec(plate, fiber=..., %s=...) without an MJD)' % (
+                                  q, g.qualname, ', '.join(sorted(names)), extra, extra[0] if extra else ''),
+                          construct='%s -> %s(**%s) with keys %s' % (q, g.qualname, kw_name(f), extra))
+            else:
+                ctx.check('C16.KW-FORWARD', True, f, c, '%s hands its ** dictionary to %s, which takes ** itself' % (q, g.qualname))
+                funcs.setdefault(g.qualname, g)
+                new = passed | own_keys(g)
+                if not new <= offered.get(g.qualname, set()):
+                    offered[g.qualname] = offered.get(g.qualname, set()) | new
+                    seen_edges = {e for e in seen_edges if e[0] != g.qualname}
+                    work.append(g.qualname)
+    ctx.need(n >= 2, 'readspec: the forwarding of its ** dictionary was not found')
+
+
 def run(ctx):
+    check_kw_forward(ctx, ctx.repo)
+    check_scalar_slot(ctx, ctx.repo)
     check_readspec(ctx, ctx.repo)
     check_location(ctx, ctx.repo)
     check_no_memo(ctx, ctx.repo)
